@@ -714,6 +714,15 @@ C07_SCRIPTS = [
     ("a declaration in a taken else-branch does not outlive it", "if false {\n} else {\n    k := 1\n}\nk = 2\n", None),
     ("parameters share the scope of the body", "fn g(t) {\n    t := 0\n}\ng(1)\nprint(0)\n", None),
     ("for iterates a snapshot", "xs := [1, 2]\nn := 0\nfor x in xs {\n    xs = xs + [3]\n    n += 1\n}\nprint(n)\n", "2\n"),
+    ("return inside a for body ends the call with its value",
+     "fn f(xs) {\n    for p in xs {\n        if p[1] == 2 {\n            return \"found\"\n        }\n    }\n    return \"none\"\n}\nprint(f([1, 2, 3]))\nprint(f([5]))\n", "found\nnone\n"),
+    ("return inside for inside while over an object", "fn f(o) {\n    while true {\n        for p in o {\n            return p[0]\n        }\n        return \"empty\"\n    }\n}\nprint(f({\"b\": 1, \"a\": 2}))\nprint(f({}))\n", "a\nempty\n"),
+    ("while re-evaluates its condition after continue", "i := 0\nn := 0\nwhile i < 3 {\n    i += 1\n    if i == 2 {\n        continue\n    }\n    n += 1\n}\nprint(i)\nprint(n)\n", "3\n2\n"),
+    ("conditions after the first true one are not evaluated", "fn t(x) {\n    print(x)\n    return true\n}\nif t(1) {\n    print(\"a\")\n} else if t(2) {\n    print(\"b\")\n}\n", "1\na\n"),
+    ("a guarded later condition is not evaluated", "xs := []\nif xs == [] {\n    print(\"empty\")\n} else if xs[0] == 1 {\n    print(\"one\")\n}\n", "empty\n"),
+    ("continue in a function called from a loop is an error, not a loop continue", "fn skip() {\n    continue\n}\nfor p in [1] {\n    skip()\n    print(9)\n}\n", None),
+    ("break in a function called from a loop is an error", "fn stop() {\n    break\n}\nwhile true {\n    stop()\n}\n", None),
+    ("for over a string walks bytes, over an object keys in order", "for p in \"ab\" {\n    print(p[1])\n}\nfor p in {\"b\": 1, \"a\": 2} {\n    print(p[0])\n}\n", "a\nb\na\nb\n"),
 ]
 C17_SCRIPTS = [
     ("for over a non-iterable", "for x in 1 {\n    print(x)\n}\n"),
